@@ -13,7 +13,7 @@ RULE = (
     "well-behaved callback, subscribe a raising callback} applied to every future kind {Future(ok provider), "
     "Future(raising provider), Future(provider raising FutureIsAlreadyComputed about another future), ConstFuture, ErrorFuture, AsyncTask returning / raising / blocked on a batch item, "
     "batch with succeeding / raising flush, batch item set / errored / left unset}: ALL sequences up to length 4 "
-    "(thorough: 5) plus seeded random sequences up to length 15, on both builds. Each operation's result or exception "
+    "(thorough: 5) plus seeded random sequences up to length 15, plus scheduler-driven scenarios in which one lazily computed future is listed twice in a yield or awaited by a parent and its child (10 shapes x ok/raising provider), on both builds. Each operation's result or exception "
     "(type, and identity of error instances) is compared with an explicit reference state machine {uncomputed, value, "
     "error} that also predicts provider/body execution counts and, per completion, exactly one notification per "
     "subscriber observing is_computed() and the final outcome. distinct = (kind, sequence); non-trivial = the "
@@ -49,6 +49,7 @@ def plan(tier, seed, build, scale):
     for k in KINDS:
         deep = tier == "thorough" and k in ("future_ok", "future_raise", "task_item", "item_ok")
         units.append({"mode": "exhaustive", "kind": k, "maxlen": n + (1 if deep else 0), "cases": [0, 1], "timeout": 2400, "case_timeout": 2300})
+    units.append({"mode": "scheduler", "cases": [0, 1]})
     nr = int((3000 if tier == "quick" else 60000) * scale)
     per = max(1, nr // 8)
     a = 0
@@ -393,9 +394,113 @@ def run_sequence(kind, seq):
     return viol, bool(completions and observed_after), len(notes)
 
 
+def run_scheduler_scenarios(res, c):
+    """The same lazily computed future reached several times by the scheduler (listed twice in one yield,
+    awaited by a parent and by its child, in every order and container): its provider runs once and every
+    awaiter sees the one outcome."""
+    import asynq
+    from asynq import Future
+    from asynq import asynq as A
+    from asynq.decorators import lazy
+    from .. import harness
+
+    def scenarios():
+        for raising in (False, True):
+            for shape in ("f,f", "[f,f,f]", "{a:f,b:f}", "(f,[f])", "child-then-f", "f-then-child", "child,child", "f,child,f", "lazy-decorator", "blocked-child"):
+                yield raising, shape
+
+    for raising, shape in scenarios():
+        asynq.scheduler.reset()
+        rt = harness.HarnessRT({"nodes": [], "kinds": 1})
+        calls = []
+
+        def prov():
+            calls.append(1)
+            if raising:
+                raise UserErr(("prov", len(calls)))
+            return ("tok", len(calls))
+
+        f = Future(prov)
+        if shape == "lazy-decorator":
+            f = lazy(prov)()
+        seen = []
+
+        @A()
+        def child(block=False):
+            if block:
+                yield harness.HItem(rt, 0, "b", ("c10s", 0))
+            try:
+                v = yield f
+                seen.append(("val", v))
+            except UserErr as e:
+                seen.append(("exc", e))
+            return 1
+
+        @A()
+        def parent():
+            try:
+                if shape in ("f,f", "lazy-decorator"):
+                    v = yield f, f
+                elif shape == "[f,f,f]":
+                    v = yield [f, f, f]
+                elif shape == "{a:f,b:f}":
+                    v = yield {"a": f, "b": f}
+                elif shape == "(f,[f])":
+                    v = yield (f, [f])
+                elif shape == "child-then-f":
+                    v = yield child.asynq(), f
+                elif shape == "f-then-child":
+                    v = yield f, child.asynq()
+                elif shape == "child,child":
+                    v = yield child.asynq(), child.asynq()
+                elif shape == "f,child,f":
+                    v = yield f, child.asynq(), f
+                else:
+                    v = yield child.asynq(True), f, child.asynq()
+                seen.append(("val", v))
+            except UserErr as e:
+                seen.append(("exc", e))
+            return 0
+
+        rt.attach()
+        try:
+            out = parent()
+            crashed = None
+        except BaseException as e:
+            crashed = e
+        finally:
+            rt.detach()
+        res["evaluations"] += 1
+        res["nontrivial"].append(hash(("sched", raising, shape)) & 0xFFFFFFFFFFFF)
+        c["scheduler_scenarios"] = c.get("scheduler_scenarios", 0) + 1
+        viol = []
+        if crashed is not None:
+            viol.append(("scheduler-scenario-crashed", exc_desc(crashed)))
+        if len(calls) != 1:
+            viol.append(("computation-run-count", {"provider_calls": len(calls), "expected": 1}))
+        excs = [x[1] for x in seen if x[0] == "exc"]
+        if raising:
+            if len(excs) != len(seen) or any(e is not excs[0] for e in excs):
+                viol.append(("awaiters-saw-different-outcomes", {"seen": repr(seen)[:200]}))
+            if f.is_computed() and f.error() is not (excs[0] if excs else None):
+                viol.append(("stored-error-differs-from-delivered", {}))
+        elif excs:
+            viol.append(("awaiters-saw-different-outcomes", {"seen": repr(seen)[:200]}))
+        for v in viol:
+            if len(res["violations"]) < 8:
+                res["violations"].append(
+                    {"oracle": v[0], "mechanism": v[0] + "/scheduler-reaches-future-twice", "detail": {"shape": shape, "raising_provider": raising, "violation": v[1]}, "case": {"mode": "scheduler", "cases": [0, 1]}}
+                )
+    res["samples"].append({"scheduler scenarios": "one Future listed twice / awaited by parent and child, 10 shapes x {ok, raising}"})
+
+
 def run_unit(unit, progress):
     res = tl.new_result()
     c = res["counters"]
+    if unit.get("mode") == "scheduler":
+        progress(0)
+        run_scheduler_scenarios(res, c)
+        return res
     devnull = os.open(os.devnull, os.O_WRONLY)
     os.dup2(devnull, 1)
     os.dup2(devnull, 2)
@@ -448,7 +553,7 @@ def run_unit(unit, progress):
 
 def reach(c, tier):
     out = []
-    for k in ["ops_" + k for k in KINDS] + ["notifications_observed", "sequences_with_reset", "exhaustive_sequences", "random_sequences"]:
+    for k in ["ops_" + k for k in KINDS] + ["notifications_observed", "sequences_with_reset", "exhaustive_sequences", "random_sequences", "scheduler_scenarios"]:
         if not c.get(k):
             out.append("%s is zero" % k)
     return out
